@@ -107,7 +107,14 @@ def main():
             return [rand_doc(depth - 1) for _ in range(rng.randrange(0, 4))]
         keys = rng.sample(["a", "b", "c", "1", "x_y", "A1"], rng.randrange(0, 4))
         return {k: rand_doc(depth - 1) for k in keys}
-    docs = [copy.deepcopy(x) for x in corpus["docs"]] + d1
+    # member names with the characters that separate path steps (written / read in bracket notation only)
+    special_docs = [{"a.b": 1, "a": {"b": 2}}, {"a:b": {"c": [5]}, "a": 0}, {"a b": [1], "x@y": {"a:b": "v"}}, {"$x": 1, "a[0]": [7], "a": [8]},
+                    {"a]b": {"k": 1}, "0a": 2, "x.y.z": {"p": {"q.r": 3}}}, {"k:0:1": [[1]], "p+q": None, "a/b": False}, {}]
+    special_get = [[("brq", "a:b")], [("brq", "a:b"), ("dot", "c")], [("brq", "a:b"), ("dot", "c"), ("idx", "0")], [("brq", "a b")], [("brq", "a b"), ("idx", "0")],
+                   [("brq", "x@y"), ("brq", "a:b")], [("brq", "k:0:1")], [("brq", "k:0:1"), ("idx", "0")], [("brq", "p+q")], [("brq", "a/b")]]
+    special_put = special_get + [[("brq", "a.b")], [("dot", "a"), ("brq", "b.c")], [("brq", "$x")], [("brq", "a[0]")], [("brq", "a]b"), ("dot", "k")],
+                                 [("brq", "x.y.z"), ("dot", "p"), ("brq", "q.r")], [("brq", "0a")], [("brq", "new.key"), ("dot", "z")], [("brq", "a"), ("brq", "b:c.d")]]
+    docs = [copy.deepcopy(x) for x in special_docs] + [copy.deepcopy(x) for x in corpus["docs"]] + d1
     for _ in range(1500 if thorough else 150):
         docs.append(rand_doc(5 if thorough else 3))
 
@@ -143,7 +150,7 @@ def main():
     get_model, get_oracle, get_desc = [], [], []
     hits = 0
     for di, doc in enumerate(docs):
-        plist = existing_paths(doc) + (paths if di < 40 else rng.sample(paths, 6))
+        plist = existing_paths(doc) + (paths if di < 40 else rng.sample(paths, 6)) + (special_get if di < len(special_docs) else [])
         for segs in plist:
             p = render(segs)
             before = copy.deepcopy(doc)
@@ -204,6 +211,8 @@ def main():
         if di < 40:
             # bracket-quoted member names with characters that dot notation cannot carry (written with ResultPath only: the reader, jsonpath, is not asked for them)
             plist = plist + [[("brq", "keep me")], [("dot", "a"), ("brq", "x@y")], [("brq", "a/b"), ("dot", "c")], [("brq", "p+q")]]
+        if di < len(special_docs) + 12:
+            plist = plist + special_put
         for segs in plist:
             p = render(segs)
             special = any(not t.replace("_", "").isalnum() for _, t in segs)
